@@ -411,7 +411,7 @@ def extra_checks(ctx, cases_, impl_lines, model_lines_):
     """"the fixed-window roller creates its files at the expanded location" - at every roll, also when somebody removed
     the archive directory in between or the variables changed (C07's histories with $ENV patterns, environment changes
     and removed directories)"""
-    res = background_build_checks(ctx, cases_, impl_lines)
+    res = background_build_checks(ctx, cases_, impl_lines) or flapping_checks(ctx, cases_, impl_lines)
     if res:
         return res
     from gen import xcheck
@@ -444,4 +444,54 @@ def background_build_checks(ctx, cases_, impl_lines):
                      % (vc.jsonable(bg)[1] if isinstance(bg, list) and len(bg) == 2 else g[:200], vc.jsonable(sync)[1]),
                      {"case_line": ln, "case_description": describe(cases_[i]) if "describe" in globals() else None})]
     ctx.setdefault("xcheck", {})["roller_cases_on_the_background_rotation_build"] = compared
+    return []
+
+
+def flapping_checks(ctx, cases_, impl_lines):
+    """the environment changes WHILE a path is expanded (another thread keeps removing and re-setting a variable the
+    path references once): every reference is "to a set variable" or "to an unset variable" - the file must appear
+    at the expansion under the environment WITH the variable or at the expansion WITHOUT it (model run on both),
+    never anywhere else"""
+    vc = ctx["vc"]
+    pick = []
+    seen = set()
+    for c, il in zip(cases_, impl_lines):
+        if c[0] != 0 or not c[2]:
+            continue
+        name, path = _text(c[2][0][0]), _text(c[1])
+        key = (path, name)
+        if key in seen or path.count("$ENV{" + name + "}") != 1 or any(_text(k) == name for k, _ in c[2][1:]):
+            continue
+        seen.add(key)
+        pick.append((c, il))
+    pick = pick[:: max(1, len(pick) // 60)][:60]
+    if not pick:
+        return []
+    ils = [il for _, il in pick]        # the harness's char::is_alphanumeric observations for these paths
+    pick = [c for c, _ in pick]
+    lines = [vc.show([20] + list(c[1:6])) for c in pick]
+    got = vc.run_lines([ctx["vh"]], lines, timeout_per_batch=600)
+    with_ = [list(c[:6]) for c in pick]
+    without = [[c[0], c[1], c[2][1:], c[3], c[4], c[5]] for c in pick]
+    ml = model_lines(ctx, with_ + without, None, ils + ils)
+    mo = vc.run_lines([ctx["drv"]], ml, timeout_per_batch=600, crash_marker="xmodelcrash")
+    ran = 0
+    for i, (c, ln, g) in enumerate(zip(pick, lines, got)):
+        try:
+            iv = vc.parse(g)
+            specs = [vc.parse(mo[i])[1], vc.parse(mo[len(pick) + i])[1]]
+        except Exception:
+            return [("a variable removed and re-set by another thread during the expansion: the call site did not return normally (%s)" % g[:100],
+                     {"case_line": ln})]
+        allowed = [s for s in specs]
+        if any(_matches(s, None) is None for s in allowed):
+            continue          # an expansion that cannot be observed through the file system
+        ran += 1
+        okset = {_norm(_text(s)) for s in allowed}
+        bad = [_text(p) for p in iv[1] if _text(p) not in okset]
+        if bad:
+            return [("while another thread keeps removing and re-setting %r, the file for path %r appeared at %r: neither the "
+                     "expansion with the variable set (%r) nor the one with it unset (%r)" %
+                     (_text(c[2][0][0]), _text(c[1]), bad[0], _text(specs[0]), _text(specs[1])), {"case_line": ln})]
+    ctx.setdefault("xcheck", {})["paths_expanded_while_a_variable_flaps"] = ran
     return []
